@@ -22,22 +22,22 @@ theorem planned_append_single (pl : List (String × List R)) (p : String × List
 
 /-- every success message sent so far names a recorded workload on the reported node whose
 container exists and runs (ids of reported workloads are below the fresh-id counter) -/
-def Truth (ms : MS R) : Prop :=
+def Truth1 (ms : MS R) : Prop :=
   ∀ m ∈ ms.msgs, m.ok = true →
-    m.id < ms.st.next ∧ (∃ w ∈ ms.st.wls, w.id = m.id ∧ w.node = m.node) ∧ (⟨m.id, m.node, true⟩ : Ct) ∈ ms.st.cts
+    m.id < ms.st.next ∧ (∃ w ∈ ms.st.wls, w.id = m.id ∧ w.node = m.node ∧ m.res = some w.res) ∧ (⟨m.id, m.node, true⟩ : Ct) ∈ ms.st.cts
 
-/-- `Truth` is kept when messages, records, containers and the counter are kept -/
-theorem Truth.same {ms ms' : MS R} (h : Truth ms) (hm : ms'.msgs = ms.msgs) (hw : ms'.st.wls = ms.st.wls)
-    (hc : ms'.st.cts = ms.st.cts) (hn : ms.st.next ≤ ms'.st.next) : Truth ms' := by
+/-- `Truth1` is kept when messages, records, containers and the counter are kept -/
+theorem Truth1.same {ms ms' : MS R} (h : Truth1 ms) (hm : ms'.msgs = ms.msgs) (hw : ms'.st.wls = ms.st.wls)
+    (hc : ms'.st.cts = ms.st.cts) (hn : ms.st.next ≤ ms'.st.next) : Truth1 ms' := by
   intro m hmem hok
   rw [hm] at hmem
   obtain ⟨h1, h2, h3⟩ := h m hmem hok
   exact ⟨Nat.lt_of_lt_of_le h1 hn, hw ▸ h2, hc ▸ h3⟩
 
 /-- a failure message never hurts -/
-theorem Truth.addFail {ms ms' : MS R} (h : Truth ms) (f : Msg) (hf : f.ok = false)
+theorem Truth1.addFail {ms ms' : MS R} (h : Truth1 ms) (f : Msg R) (hf : f.ok = false)
     (hm : ms'.msgs = ms.msgs ++ [f]) (hw : ms'.st.wls = ms.st.wls)
-    (hc : ms'.st.cts = ms.st.cts) (hn : ms.st.next ≤ ms'.st.next) : Truth ms' := by
+    (hc : ms'.st.cts = ms.st.cts) (hn : ms.st.next ≤ ms'.st.next) : Truth1 ms' := by
   intro m hmem hok
   rw [hm] at hmem
   rcases List.mem_append.mp hmem with hmem | hmem
@@ -47,19 +47,19 @@ theorem Truth.addFail {ms ms' : MS R} (h : Truth ms) (f : Msg) (hf : f.ok = fals
     rw [hmem, hf] at hok
     cases hok
 
-/-- `Truth` survives a deploy attempt of a FRESH id (`DeployPost`), whatever its outcome -/
-theorem Truth.deploy {n : String} {r : R} {ms ms' : MS R} {b : Bool} (h : Truth ms)
-    (hp : DeployPost n r ms b ms') : Truth ms' := by
+/-- `Truth1` survives a deploy attempt of a FRESH id (`DeployPost`), whatever its outcome -/
+theorem Truth1.deploy {n : String} {r : R} {ms ms' : MS R} {b : Bool} (h : Truth1 ms)
+    (hp : DeployPost n r ms b ms') : Truth1 ms' := by
   obtain ⟨_, _, _, _, _, hm, hle, _, hp⟩ := hp
   intro m hmem hok
   rw [hm] at hmem
-  obtain ⟨h1, ⟨w, hw, hwid, hwn⟩, h3⟩ := h m hmem hok
+  obtain ⟨h1, ⟨w, hw, hwid, hwn, hwr⟩, h3⟩ := h m hmem hok
   refine ⟨Nat.lt_of_lt_of_le h1 hle, ?_, ?_⟩
   · rcases hp with ⟨_, hws, _, _⟩ | ⟨_, _, hws, _⟩
-    · exact ⟨w, by rw [hws]; exact List.mem_cons_of_mem _ hw, hwid, hwn⟩
+    · exact ⟨w, by rw [hws]; exact List.mem_cons_of_mem _ hw, hwid, hwn, hwr⟩
     · rcases hws with e | e
-      · exact ⟨w, e ▸ hw, hwid, hwn⟩
-      · refine ⟨w, ?_, hwid, hwn⟩
+      · exact ⟨w, e ▸ hw, hwid, hwn, hwr⟩
+      · refine ⟨w, ?_, hwid, hwn, hwr⟩
         rw [e]
         refine List.mem_filter.mpr ⟨hw, ?_⟩
         simp only [bne_iff_ne, ne_eq]; omega
@@ -76,8 +76,8 @@ theorem Truth.deploy {n : String} {r : R} {ms ms' : MS R} {b : Bool} (h : Truth 
         simp only [bne_iff_ne, ne_eq]; omega
 
 /-- a successful deploy may be reported -/
-theorem Truth.addOk {n : String} {r : R} {ms ms1 ms' : MS R} (h : Truth ms) (hp : DeployPost n r ms true ms1)
-    (hm : ms'.msgs = ms1.msgs ++ [⟨n, ms.st.next, true⟩]) (hst : ms'.st = ms1.st) : Truth ms' := by
+theorem Truth1.addOk {n : String} {r : R} {ms ms1 ms' : MS R} (h : Truth1 ms) (hp : DeployPost n r ms true ms1)
+    (hm : ms'.msgs = ms1.msgs ++ [⟨n, ms.st.next, true, some r⟩]) (hst : ms'.st = ms1.st) : Truth1 ms' := by
   have h1 := h.deploy hp
   obtain ⟨_, _, _, _, _, _, hle, _, hp'⟩ := hp
   rcases hp' with ⟨_, hws, hnx, hcts⟩ | ⟨hb, _⟩
@@ -88,9 +88,48 @@ theorem Truth.addOk {n : String} {r : R} {ms ms1 ms' : MS R} (h : Truth ms) (hp 
     · simp only [List.mem_singleton] at hmem
       subst hmem
       rw [hst]
-      refine ⟨by rw [hnx]; simp only; omega, ⟨⟨ms.st.next, n, r⟩, by rw [hws]; exact List.mem_cons_self .., rfl, rfl⟩, ?_⟩
+      refine ⟨by rw [hnx]; simp only; omega, ⟨⟨ms.st.next, n, r⟩, by rw [hws]; exact List.mem_cons_self .., rfl, rfl, rfl⟩, ?_⟩
       rw [hcts]; exact List.mem_cons_self ..
   · cases hb
+
+/-- ids of the success messages -/
+def okIds (msgs : List (Msg R)) : List Nat := (msgs.filter (·.ok)).map (·.id)
+
+theorem okIds_append_fail (msgs : List (Msg R)) (f : Msg R) (hf : f.ok = false) : okIds (msgs ++ [f]) = okIds msgs := by
+  simp [okIds, List.filter_append, hf]
+
+theorem okIds_append_ok (msgs : List (Msg R)) (f : Msg R) (hf : f.ok = true) : okIds (msgs ++ [f]) = okIds msgs ++ [f.id] := by
+  simp [okIds, List.filter_append, hf]
+
+/-- all successes so far are truthful (`Truth1`) and name pairwise different workloads -/
+def Truth (ms : MS R) : Prop := Truth1 ms ∧ (okIds ms.msgs).Nodup
+
+theorem Truth.same {ms ms' : MS R} (h : Truth ms) (hm : ms'.msgs = ms.msgs) (hw : ms'.st.wls = ms.st.wls)
+    (hc : ms'.st.cts = ms.st.cts) (hn : ms.st.next ≤ ms'.st.next) : Truth ms' :=
+  ⟨h.1.same hm hw hc hn, hm ▸ h.2⟩
+
+theorem Truth.addFail {ms ms' : MS R} (h : Truth ms) (f : Msg R) (hf : f.ok = false)
+    (hm : ms'.msgs = ms.msgs ++ [f]) (hw : ms'.st.wls = ms.st.wls)
+    (hc : ms'.st.cts = ms.st.cts) (hn : ms.st.next ≤ ms'.st.next) : Truth ms' :=
+  ⟨h.1.addFail f hf hm hw hc hn, by rw [hm, okIds_append_fail _ _ hf]; exact h.2⟩
+
+theorem Truth.deploy {n : String} {r : R} {ms ms' : MS R} {b : Bool} (h : Truth ms)
+    (hp : DeployPost n r ms b ms') : Truth ms' :=
+  ⟨h.1.deploy hp, by rw [hp.2.2.2.2.2.1]; exact h.2⟩
+
+theorem Truth.addOk {n : String} {r : R} {ms ms1 ms' : MS R} (h : Truth ms) (hp : DeployPost n r ms true ms1)
+    (hm : ms'.msgs = ms1.msgs ++ [⟨n, ms.st.next, true, some r⟩]) (hst : ms'.st = ms1.st) : Truth ms' := by
+  refine ⟨h.1.addOk hp hm hst, ?_⟩
+  rw [hm, okIds_append_ok _ _ rfl, hp.2.2.2.2.2.1]
+  apply List.nodup_append.mpr
+  refine ⟨h.2, by simp, ?_⟩
+  intro a ha b hb
+  simp only [List.mem_singleton] at hb
+  subst hb
+  simp only [okIds, List.mem_map, List.mem_filter] at ha
+  obtain ⟨m, ⟨hmem, hok⟩, rfl⟩ := ha
+  have := (h.1 m hmem hok).1
+  omega
 
 /-! ### stream shape and truthfulness through the then step -/
 
@@ -131,24 +170,24 @@ theorem deployInsts_stream (n : String) (base : Nat) (flt : Option Addr) :
       unfold instMsg
       simp only [Bool.false_eq_true, if_false, wp_bind, wp_noteFailed, wp_emit, wpK_ok]
       apply hrec
-      refine ⟨?_, (h.2.deploy hp).addFail ⟨n, 0, false⟩ rfl rfl rfl rfl (Nat.le_refl _)⟩
+      refine ⟨?_, (h.2.deploy hp).addFail ⟨n, 0, false, none⟩ rfl rfl rfl rfl (Nat.le_refl _)⟩
       simp only [List.length_append, List.length_singleton, hp.2.2.2.2.2.1, h.1]
       omega
 
 theorem failAll_stream (n : String) (base : Nat) (flt : Option Addr) :
     ∀ (rs done : List R) (ms : MS R), SI base done ms →
-    wp (forEach rs (fun r => do noteFailed n r; emit ⟨"", 0, false⟩))
+    wp (forEach rs (fun r => do noteFailed n r; emit ⟨"", 0, false, none⟩))
       (fun o ms' => o = .ok () ∧ SI base (done ++ rs) ms') flt ms := by
   intro rs
   induction rs with
   | nil => intro done ms h; rw [List.append_nil]; exact ⟨rfl, h⟩
   | cons r rest ih =>
     intro done ms h
-    show wp ((do noteFailed n r; emit ⟨"", 0, false⟩) >>= fun _ => forEach rest _) _ flt ms
+    show wp ((do noteFailed n r; emit ⟨"", 0, false, none⟩) >>= fun _ => forEach rest _) _ flt ms
     simp only [wp_bind, wp_noteFailed, wp_emit, wpK_ok]
-    have := ih (done ++ [r]) { ms with failed := ms.failed ++ [(n, r)], msgs := ms.msgs ++ [⟨"", 0, false⟩] }
+    have := ih (done ++ [r]) { ms with failed := ms.failed ++ [(n, r)], msgs := ms.msgs ++ [⟨"", 0, false, none⟩] }
       ⟨by simp only [List.length_append, List.length_singleton, h.1]; omega,
-       h.2.addFail ⟨"", 0, false⟩ rfl rfl rfl rfl (Nat.le_refl _)⟩
+       h.2.addFail ⟨"", 0, false, none⟩ rfl rfl rfl rfl (Nat.le_refl _)⟩
     rwa [List.append_assoc, List.singleton_append] at this
 
 /-- plan prefix `pre` handled: one message per instance so far, all successes truthful -/
@@ -182,13 +221,13 @@ theorem deployNode_stream (pre : List (String × List R)) (p : String × List R)
 
 /-- effects that keep records, containers and the id counter (usage / WAL / marker updates) -/
 def KeepsRC (eff : State R → State R) : Prop :=
-  ∀ s, (eff s).wls = s.wls ∧ (eff s).cts = s.cts ∧ (eff s).next = s.next
+  ∀ s, (eff s).wls = s.wls ∧ (eff s).cts = s.cts ∧ (eff s).next = s.next ∧ (eff s).cap = s.cap ∧ (eff s).nodes = s.nodes
 
 /-- messages, records, containers are exactly `m0`, `w0`, `c0` -/
-def Frozen (m0 : List Msg) (w0 : List (Wl R)) (c0 : List Ct) (ms : MS R) : Prop :=
+def Frozen (m0 : List (Msg R)) (w0 : List (Wl R)) (c0 : List Ct) (ms : MS R) : Prop :=
   ms.msgs = m0 ∧ ms.st.wls = w0 ∧ ms.st.cts = c0
 
-theorem pres_frozen_step (m0 : List Msg) (w0 : List (Wl R)) (c0 : List Ct) (k n : String) (eff : State R → State R)
+theorem pres_frozen_step (m0 : List (Msg R)) (w0 : List (Wl R)) (c0 : List Ct) (k n : String) (eff : State R → State R)
     (he : KeepsRC eff) : Pres (Frozen m0 w0 c0) (step k n eff) := by
   apply pres_step'
   · intro ms h
@@ -201,16 +240,16 @@ theorem pres_stream_step (kk : Nat) (k n : String) (eff : State R → State R) (
   apply pres_step'
   · intro ms h
     have := he ms.st
-    exact ⟨h.1, h.2.same rfl (by simp [this.1]) (by simp [this.2.1]) (by simp [this.2.2])⟩
+    exact ⟨h.1, h.2.same rfl (by simp [this.1]) (by simp [this.2.1]) (by simp [this.2.2.1])⟩
   · intro ms h
     exact ⟨h.1, h.2.same rfl rfl rfl (Nat.le_refl _)⟩
 
-theorem keepsRC_id : KeepsRC (id : State R → State R) := fun _ => ⟨rfl, rfl, rfl⟩
-theorem keepsRC_addUsage (n : String) (r : R) : KeepsRC (addUsage n r) := fun _ => ⟨rfl, rfl, rfl⟩
-theorem keepsRC_walAdd (e n : String) (k : Nat) : KeepsRC (walAdd (R := R) e n k) := fun _ => ⟨rfl, rfl, rfl⟩
-theorem keepsRC_walRm (e n : String) (k : Nat) : KeepsRC (walRm (R := R) e n k) := fun _ => ⟨rfl, rfl, rfl⟩
-theorem keepsRC_addMarker (n : String) (k : Nat) : KeepsRC (addMarker (R := R) n k) := fun _ => ⟨rfl, rfl, rfl⟩
-theorem keepsRC_rmMarker (n : String) : KeepsRC (rmMarker (R := R) n) := fun _ => ⟨rfl, rfl, rfl⟩
+theorem keepsRC_id : KeepsRC (id : State R → State R) := fun _ => ⟨rfl, rfl, rfl, rfl, rfl⟩
+theorem keepsRC_addUsage (n : String) (r : R) : KeepsRC (addUsage n r) := fun _ => ⟨rfl, rfl, rfl, rfl, rfl⟩
+theorem keepsRC_walAdd (e n : String) (k : Nat) : KeepsRC (walAdd (R := R) e n k) := fun _ => ⟨rfl, rfl, rfl, rfl, rfl⟩
+theorem keepsRC_walRm (e n : String) (k : Nat) : KeepsRC (walRm (R := R) e n k) := fun _ => ⟨rfl, rfl, rfl, rfl, rfl⟩
+theorem keepsRC_addMarker (n : String) (k : Nat) : KeepsRC (addMarker (R := R) n k) := fun _ => ⟨rfl, rfl, rfl, rfl, rfl⟩
+theorem keepsRC_rmMarker (n : String) : KeepsRC (rmMarker (R := R) n) := fun _ => ⟨rfl, rfl, rfl, rfl, rfl⟩
 
 /-- programs built from steps with `KeepsRC` effects keep any predicate that such steps keep -/
 theorem pres_giveBack {I : MS R → Prop}
@@ -263,7 +302,7 @@ ends with EITHER the single failure message and records / containers untouched, 
 message per planned instance; and every success message is truthful. -/
 theorem createTxn_stream (a : CreateArgs R) (flt : Option Addr) (ms : MS R) (hm : ms.msgs = []) :
     wp (createTxn a) (fun _ ms' =>
-      ((ms'.msgs = [⟨"", 0, false⟩] ∧ ms'.st.wls = ms.st.wls ∧ ms'.st.cts = ms.st.cts) ∨
+      ((ms'.msgs = [⟨"", 0, false, none⟩] ∧ ms'.st.wls = ms.st.wls ∧ ms'.st.cts = ms.st.cts) ∨
         ms'.msgs.length = planned a.plan) ∧ Truth ms') flt ms := by
   unfold createTxn
   rw [wp_txn, wp_withFailMsg]
@@ -274,20 +313,21 @@ theorem createTxn_stream (a : CreateArgs R) (flt : Option Addr) (ms : MS R) (hm 
   cases o with
   | fail =>
     simp only [txnK1_fail_some]
-    have h1' : Frozen [⟨"", 0, false⟩] ms.st.wls ms.st.cts { ms1 with msgs := ms1.msgs ++ [⟨"", 0, false⟩] } :=
+    have h1' : Frozen [⟨"", 0, false, none⟩] ms.st.wls ms.st.cts { ms1 with msgs := ms1.msgs ++ [⟨"", 0, false, none⟩] } :=
       ⟨by simp [h1.1], h1.2.1, h1.2.2⟩
-    have := pres_createRollback (I := Frozen [⟨"", 0, false⟩] ms.st.wls ms.st.cts)
+    have := pres_createRollback (I := Frozen [⟨"", 0, false, none⟩] ms.st.wls ms.st.cts)
       (pres_frozen_step _ _ _) a true flt _ h1'
-    refine ⟨Or.inl this, ?_⟩
+    have hmsgs : (exec (createRollback a true) flt { ms1 with msgs := ms1.msgs ++ [⟨"", 0, false, none⟩] }).msgs = [⟨"", 0, false, none⟩] := this.1
+    refine ⟨Or.inl this, ?_, by rw [hmsgs]; simp [okIds]⟩
     intro m hmem hok
-    rw [show (exec (createRollback a true) flt { ms1 with msgs := ms1.msgs ++ [⟨"", 0, false⟩] }).msgs = [⟨"", 0, false⟩] from this.1] at hmem
+    rw [hmsgs] at hmem
     simp only [List.mem_singleton] at hmem
     rw [hmem] at hok
     cases hok
   | ok u =>
     simp only [txnK1_ok]
     have hS : S ([] : List (String × List R)) ms1 := by
-      refine ⟨by rw [h1.1]; rfl, ?_⟩
+      refine ⟨by rw [h1.1]; rfl, ?_, by rw [h1.1]; exact List.nodup_nil⟩
       intro m hmem
       rw [h1.1] at hmem
       cases hmem
@@ -312,9 +352,185 @@ theorem createTxn_stream (a : CreateArgs R) (flt : Option Addr) (ms : MS R) (hm 
           (pres_stream_step _) a false flt ms2 h2
         exact ⟨Or.inr this.1, this.2⟩
 
+/-! ### cleanliness of the whole call -/
+
+/-- relative to the state `s0` the call started in: every record is an old one or a reported success,
+no old record is lost, every container is an old one or belongs to a reported success, capacity and
+nodes are untouched -/
+def Clean (s0 : State R) (ms : MS R) : Prop :=
+  (∀ w ∈ ms.st.wls, w ∈ s0.wls ∨ w.id ∈ okIds ms.msgs) ∧ (∀ w ∈ s0.wls, w ∈ ms.st.wls) ∧
+  (∀ c ∈ ms.st.cts, (∃ c0 ∈ s0.cts, c0.id = c.id) ∨ c.id ∈ okIds ms.msgs) ∧
+  s0.next ≤ ms.st.next ∧ ms.st.cap = s0.cap ∧ ms.st.nodes = s0.nodes
+
+theorem Clean.same {s0 : State R} {ms ms' : MS R} (h : Clean s0 ms) (hm : okIds ms'.msgs = okIds ms.msgs)
+    (hw : ms'.st.wls = ms.st.wls) (hc : ms'.st.cts = ms.st.cts) (hn : ms.st.next ≤ ms'.st.next)
+    (hcap : ms'.st.cap = ms.st.cap) (hnodes : ms'.st.nodes = ms.st.nodes) : Clean s0 ms' := by
+  obtain ⟨h1, h2, h3, h4, h5, h6⟩ := h
+  exact ⟨fun w hw' => by rw [hm]; exact h1 w (hw ▸ hw'), fun w hw' => hw ▸ h2 w hw',
+    fun c hc' => by rw [hm]; exact h3 c (hc ▸ hc'), Nat.le_trans h4 hn, hcap.trans h5, hnodes.trans h6⟩
+
+theorem pres_clean_step (s0 : State R) (k n : String) (eff : State R → State R) (he : KeepsRC eff) :
+    Pres (Clean s0) (step k n eff) := by
+  apply pres_step'
+  · intro ms h
+    have := he ms.st
+    exact h.same rfl (by simp [this.1]) (by simp [this.2.1]) (by simp [this.2.2.1]) (by simp [this.2.2.2.1]) (by simp [this.2.2.2.2])
+  · intro ms h
+    exact h.same rfl rfl rfl (Nat.le_refl _) rfl rfl
+
+/-- a deploy attempt followed by its message keeps `Clean` -/
+theorem Clean.deployMsg {s0 : State R} {n : String} {r : R} {ms ms1 ms' : MS R} {b : Bool}
+    (h : Clean s0 ms) (hids : ∀ w ∈ s0.wls, w.id < s0.next) (hp : DeployPost n r ms b ms1)
+    (hst : ms'.st = ms1.st)
+    (hm : okIds ms'.msgs = if b then okIds ms.msgs ++ [ms.st.next] else okIds ms.msgs) : Clean s0 ms' := by
+  obtain ⟨h1, h2, h3, h4, h5, h6⟩ := h
+  obtain ⟨hcap, hnodes, _, _, _, _, hle, _, hp⟩ := hp
+  unfold Clean
+  rw [hst]
+  rcases hp with ⟨rfl, hws, hnx, hcts⟩ | ⟨rfl, _, hws, hcts⟩
+  · simp only [if_true] at hm
+    refine ⟨?_, ?_, ?_, Nat.le_trans h4 hle, hcap.trans h5, hnodes.trans h6⟩
+    · intro w hw
+      rw [hws] at hw
+      rw [hm]
+      rcases List.mem_cons.mp hw with rfl | hw
+      · exact Or.inr (by simp)
+      · rcases h1 w hw with h' | h'
+        · exact Or.inl h'
+        · exact Or.inr (List.mem_append_left _ h')
+    · intro w hw
+      rw [hws]; exact List.mem_cons_of_mem _ (h2 w hw)
+    · intro c hc
+      rw [hcts] at hc
+      rw [hm]
+      rcases List.mem_cons.mp hc with rfl | hc
+      · exact Or.inr (by simp)
+      · simp only [setRunning_cts, List.mem_map] at hc
+        obtain ⟨c', hc', rfl⟩ := hc
+        have hid : (if c'.id = ms.st.next then { c' with running := true } else c').id = c'.id := by split <;> rfl
+        rw [hid]
+        rcases h3 c' hc' with h' | h'
+        · exact Or.inl h'
+        · exact Or.inr (List.mem_append_left _ h')
+  · simp only [Bool.false_eq_true, if_false] at hm
+    refine ⟨?_, ?_, ?_, Nat.le_trans h4 hle, hcap.trans h5, hnodes.trans h6⟩
+    · intro w hw
+      rw [hm]
+      rcases hws with e | e
+      · exact h1 w (e ▸ hw)
+      · rw [e] at hw; exact h1 w (List.mem_filter.mp hw).1
+    · intro w hw
+      rcases hws with e | e
+      · rw [e]; exact h2 w hw
+      · rw [e]
+        refine List.mem_filter.mpr ⟨h2 w hw, ?_⟩
+        have := hids w hw
+        simp only [bne_iff_ne, ne_eq]; omega
+    · intro c hc
+      rw [hm]
+      rcases hcts with e | e
+      · exact h3 c (e ▸ hc)
+      · rw [e] at hc; exact h3 c (List.mem_filter.mp hc).1
+
+theorem deployInsts_clean (s0 : State R) (hids : ∀ w ∈ s0.wls, w.id < s0.next) (n : String) (flt : Option Addr) :
+    ∀ (rs : List R) (ms : MS R), Clean s0 ms → wp (deployInsts n rs) (fun _ ms' => Clean s0 ms') flt ms := by
+  intro rs
+  induction rs with
+  | nil => intro ms h; exact h
+  | cons r rest ih =>
+    intro ms h
+    unfold deployInsts
+    rw [wp_bind, wp_getSt]
+    simp only [wpK_ok]
+    rw [wp_bind, wp_attempt, wp_bind]
+    apply wp_mono (deployOne_spec n r true flt ms)
+    intro o ms1 h1
+    rcases h1 with ⟨rfl, hp⟩ | ⟨rfl, hp⟩
+    · simp only [wpK_ok, wp_pure, attK_ok]
+      rw [wp_bind]
+      unfold instMsg
+      simp only [if_true, wp_emit, wpK_ok]
+      apply ih
+      exact h.deployMsg hids hp rfl (by simp [okIds_append_ok, hp.2.2.2.2.2.1])
+    · simp only [wpK_fail, attK_fail, wpK_ok]
+      rw [wp_bind]
+      unfold instMsg
+      simp only [Bool.false_eq_true, if_false, wp_bind, wp_noteFailed, wp_emit, wpK_ok]
+      apply ih
+      exact h.deployMsg hids hp rfl (by simp [okIds_append_fail, hp.2.2.2.2.2.1])
+
+theorem deployNode_clean (s0 : State R) (hids : ∀ w ∈ s0.wls, w.id < s0.next) (p : String × List R) :
+    Pres (Clean s0) (deployNode p.1 p.2) := by
+  intro flt ms h
+  unfold deployNode
+  rw [wp_bind, wp_attempt, wp_readStep]
+  split
+  · simp only [attK_fail, wpK_ok, Bool.false_eq_true, if_false]
+    have hf : Clean s0 (failMS ms "storeGetNode" p.1) := h.same rfl rfl rfl (Nat.le_refl _) rfl rfl
+    refine pres_forEach (I := Clean s0) p.2 (fun r _ => ?_) flt _ hf
+    intro flt' ms' h'
+    simp only [wp_bind, wp_noteFailed, wp_emit, wpK_ok]
+    exact h'.same (by simp [okIds_append_fail]) rfl rfl (Nat.le_refl _) rfl rfl
+  · simp only [attK_ok, wpK_ok, if_true]
+    have hf : Clean s0 (okMS ms "storeGetNode" p.1 id) := h.same rfl rfl rfl (Nat.le_refl _) rfl rfl
+    exact deployInsts_clean s0 hids p.1 flt p.2 _ hf
+
+/-- **cleanliness of `create`**: whatever the fault, the call ends with `Clean` -/
+theorem create_clean (a : CreateArgs R) (flt : Option Addr) (ms : MS R) (hm : ms.msgs = [])
+    (hids : ∀ w ∈ ms.st.wls, w.id < ms.st.next) : wp (create a) (fun _ ms' => Clean ms.st ms') flt ms := by
+  have h0 : Clean ms.st ms :=
+    ⟨fun w hw => Or.inl hw, fun w hw => hw, fun c hc => Or.inl ⟨c, hc, rfl⟩, Nat.le_refl _, rfl, rfl⟩
+  have hstep := pres_clean_step ms.st
+  have hkeep : ∀ (m : M R Unit), (∀ flt' ms', (m flt' ms').2 = ms') → Pres (Clean ms.st) m := by
+    intro m hm' flt' ms' h'
+    unfold wp; rw [hm']; exact h'
+  have hinert : ∀ (k n : String) (eff : State R → State R), KeepsRC eff →
+      Pres (Clean ms.st) (do let _ ← attempt (step k n eff); pure ()) := by
+    intro k n eff he
+    exact pres_bind (pres_attempt (hstep _ _ _ he)) (fun _ => pres_pure _ _)
+  have htxn : Pres (Clean ms.st) (createTxn a) := by
+    unfold createTxn
+    apply pres_txn
+    · intro flt' ms' h'
+      rw [wp_withFailMsg]
+      apply wp_mono (pres_createCond hstep (fun _ _ _ _ h => h) a flt' ms' h')
+      intro o ms1 h1
+      cases o with
+      | ok u => exact h1
+      | fail => exact h1.same (by simp [okIds_append_fail]) rfl rfl (Nat.le_refl _) rfl rfl
+    · unfold createThen
+      apply pres_bind (pres_forEach _ (fun p _ => deployNode_clean ms.st hids p))
+      intro _
+      apply pres_bind (fun _ _ h => h)
+      intro msx
+      exact pres_ite _ (pres_pure _ _) (pres_refuse _)
+    · intro f hf b
+      simp only [Option.some.injEq] at hf
+      subst hf
+      exact pres_createRollback hstep a b
+  unfold create
+  apply pres_bind (pres_attempt htxn) _ flt ms h0
+  intro _
+  apply pres_bind
+  · unfold deleteMarkers
+    apply pres_bind (fun _ _ h => h)
+    intro msx
+    exact pres_ite _ (pres_forEach _ (fun p _ => hinert _ _ _ (keepsRC_rmMarker _))) (pres_pure _ _)
+  · intro _
+    apply pres_bind
+    · unfold commitProcessing
+      apply pres_bind (fun _ _ h => h)
+      intro msx
+      exact pres_forEach _ (fun p _ => hinert _ _ _ (keepsRC_walRm _ _ _))
+    · intro _
+      unfold commitAllocated
+      apply pres_bind (fun _ _ h => h)
+      intro msx
+      exact pres_ite _ (hinert _ _ _ (keepsRC_walRm _ _ _)) (pres_pure _ _)
+
 /-- what the create result stream looks like (relative to the state `s0` the call started in) -/
 def StreamPost (a : CreateArgs R) (s0 : State R) (ms' : MS R) : Prop :=
-  ((ms'.msgs = [⟨"", 0, false⟩] ∧ ms'.st.wls = s0.wls ∧ ms'.st.cts = s0.cts) ∨
+  ((ms'.msgs = [⟨"", 0, false, none⟩] ∧ ms'.st.wls = s0.wls ∧ ms'.st.cts = s0.cts) ∨
     ms'.msgs.length = planned a.plan) ∧ Truth ms'
 
 theorem pres_streamPost_step (a : CreateArgs R) (s0 : State R) (k n : String) (eff : State R → State R)
@@ -322,7 +538,7 @@ theorem pres_streamPost_step (a : CreateArgs R) (s0 : State R) (k n : String) (e
   apply pres_step'
   · intro ms h
     have := he ms.st
-    refine ⟨?_, h.2.same rfl (by simp [this.1]) (by simp [this.2.1]) (by simp [this.2.2])⟩
+    refine ⟨?_, h.2.same rfl (by simp [this.1]) (by simp [this.2.1]) (by simp [this.2.2.1])⟩
     rcases h.1 with ⟨h1, h2, h3⟩ | h1
     · exact Or.inl ⟨h1, by simp [this.1, h2], by simp [this.2.1, h3]⟩
     · exact Or.inr h1
@@ -358,5 +574,36 @@ theorem create_stream (a : CreateArgs R) (flt : Option Addr) (ms : MS R) (hm : m
         intro msx
         exact pres_ite _ (hinert _ _ _ (keepsRC_walRm _ _ _)) (pres_pure _ _)
   cases o <;> exact tail flt ms1 h1
+
+theorem loadL_perm {l1 l2 : List (Wl R)} (h : l1.Perm l2) (n : String) : loadL l1 n = loadL l2 n := by
+  induction h with
+  | nil => rfl
+  | cons x _ ih => simp only [loadL_cons, ih]
+  | swap x y l =>
+    simp only [loadL_cons]
+    by_cases hx : x.node = n <;> by_cases hy : y.node = n <;> simp [hx, hy, add_left_comm]
+  | trans _ _ ih1 ih2 => exact ih1.trans ih2
+
+/-- every message of a create call reports failure ⇒ the call changed nothing: same nodes, capacity,
+usage and records, and no new container -/
+theorem create_all_failed (a : CreateArgs R) (hnd : (a.plan.map (·.1)).Nodup) (flt : Option Addr) (s : State R)
+    (h : Inv s) :
+    okIds (run (create a) flt s).2.msgs = [] →
+      AbsEq s (run (create a) flt s).2.st ∧ ∀ c ∈ (run (create a) flt s).2.st.cts, ∃ c0 ∈ s.cts, c0.id = c.id := by
+  intro hok
+  have hc : Clean s (run (create a) flt s).2 := create_clean a flt { st := s } rfl h.2.1
+  have hi : Inv (run (create a) flt s).2.st := create_inv a hnd flt { st := s } ⟨h, rfl, rfl⟩
+  obtain ⟨c1, c2, c3, _, c5, c6⟩ := hc
+  rw [hok] at c1 c3
+  have hmem : ∀ w, w ∈ (run (create a) flt s).2.st.wls ↔ w ∈ s.wls :=
+    fun w => ⟨fun hw => (c1 w hw).elim id (fun h' => by cases h'), c2 w⟩
+  refine ⟨⟨c6, c5, ?_, hmem⟩, fun c hc' => (c3 c hc').elim id (fun h' => by cases h')⟩
+  funext m
+  have hp : (run (create a) flt s).2.st.wls.Perm s.wls :=
+    (List.perm_ext_iff_of_nodup (List.Nodup.of_map _ hi.1) (List.Nodup.of_map _ h.1)).mpr hmem
+  have e1 := hi.2.2 m
+  have e0 := h.2.2 m
+  unfold load at e1 e0
+  rw [e1, e0, loadL_perm hp m]
 
 end Eru.Cluster
